@@ -6,6 +6,7 @@ CONSTANTS
   MaxIds = 4
   MaxCommits = 4
   MaxLocks = 1
+  MaxCrash = 0
   RcRoots = FALSE
   AO = FALSE
   Fine = TRUE
